@@ -225,6 +225,29 @@ def main(argv):
             status = {1: "CAUGHT", 0: "MISSED", 2: "INCONCLUSIVE"}.get(c["rc"], "rc=%s" % c["rc"])
             print("%-14s %-4s %-12s %6.1fs  %s   (scratch worktree)" % (argv[1], p, status, c.get("wall", 0), (c.get("first") or [""])[0][:170]))
         return 0
+    if argv[0] == "tryrec":
+        # like try (scratch worktree handed to the check through VF_REPO, so several can run side by side) but the outcome is kept: one JSON file
+        # per seed under <dir>, merged into RESULTS.json by `merge <dir>`
+        out_dir, sid = argv[1], argv[2]
+        tier = argv[3] if len(argv) > 3 else "quick"
+        os.makedirs(out_dir, exist_ok=True)
+        r = try_one(sid, tier)
+        for p, c in r.items():
+            c["where"] = "scratch worktree of /repo HEAD with the change applied (VF_REPO)"
+            status = {1: "CAUGHT", 0: "MISSED", 2: "INCONCLUSIVE"}.get(c["rc"], "rc=%s" % c["rc"])
+            print("%-14s %-4s %-12s %6.1fs  %s" % (sid, p, status, c.get("wall", 0), (c.get("first") or [""])[0][:150]))
+        json.dump(r, open(os.path.join(out_dir, sid + ".json"), "w"))
+        return 0
+    if argv[0] == "merge":
+        results = load_results()
+        n = 0
+        for f in sorted(os.listdir(argv[1])):
+            if f.endswith(".json"):
+                results.setdefault(f[:-5], {}).update(json.load(open(os.path.join(argv[1], f))))
+                n += 1
+        json.dump(results, open(os.path.join(SEEDED, "RESULTS.json"), "w"), indent=1, sort_keys=True)
+        print("merged", n)
+        return 0
     if argv[0] == "table":
         for sid, r in sorted(load_results().items()):
             for p, c in sorted(r.items()):
